@@ -3,11 +3,15 @@
 # Re-runs, in scratch mode (tools/mutant_try.sh: correspondence + oracle of the property's quick check, no Lean
 # obligations, /repo untouched), every stored change of /verif/seeded against the machinery as it is now, and prints
 # one line per change.  Used after generator / harness changes to make sure nothing that used to be reported got lost.
+# recheck_seeded.sh <worktree> <k> <n> re-runs only the changes whose position in the list is k modulo n (for running n
+# copies side by side, each with a worktree of its own).
 W=${1:-/tmp/mut/recheck}
+K=${2:-0}; N=${3:-1}; idx=0
 [ -d $W ] || git -C /repo worktree add -q --detach $W HEAD
 cd $W
 git checkout -q --detach $(git -C /repo rev-parse HEAD) 2>/dev/null
 for d in /verif/seeded/C*/ /verif/seeded/redteam-[0-9]*/; do
+  idx=$((idx + 1)); [ $((idx % N)) -eq $K ] || continue
   id=$(basename $d); p=$(python3 -c "import json;print(json.load(open('$d/meta.json'))['property'])")
   git checkout -q -- . ; git clean -fdq tests 2>/dev/null
   git apply $d/patch.diff 2>/dev/null || { echo "[$id] patch does not apply"; continue; }
